@@ -231,6 +231,10 @@ def sx_eq(a, b):
 
 def sx_call(obj, name, /, *a, **k):
     """obj.name(*a, **k) with lifting of concrete receivers when an argument is symbolic"""
+    if name == "__len__" and not a:
+        f = getattr(obj, "__sx_len__", None)
+        if f is not None:
+            return f()
     if isinstance(obj, (builtins.str, builtins.bytes)) and (a or k) and has_sym(list(a) + list(k.values())):
         if name == "format":
             return sym_format(obj, a, k)
